@@ -233,13 +233,21 @@ impl TypeRef {
     /// Visits the [TypeRef] with the provided `visitor`.
     ///
     /// This function first calls `visitor.visit_type_ref`, then if the type being referenced is a result, sequence,
-    /// or dictionary, it recursively calls itself on their underlying types.
+    /// or dictionary that was written in place, it recursively calls itself on their underlying types.
     pub fn visit_with(&self, visitor: &mut impl Visitor) {
         visitor.visit_type_ref(self);
 
         // If this typeref isn't patched, do not attempt to visit it further.
         // Note that result, sequence, and dictionary types (the only ones we visit further) are always patched anyways.
         if matches!(&self.definition, TypeRefDefinition::Unpatched(_)) {
+            return;
+        }
+
+        // The types nested inside of a result, sequence, or dictionary are visited where that type was written.
+        // If this typeref reached it by name (through a type alias), they're part of the alias's definition and are
+        // visited there. Visiting them here as well would present them once for every use of the alias (reporting
+        // any mistake in them that many times), and in files they aren't part of.
+        if self.is_named_reference {
             return;
         }
 
